@@ -134,10 +134,10 @@ Proof.
 Qed.
 
 Lemma merge_fail_delivers_nothing : forall merge2 flow jview estr a tty srcs stdin_src,
-  r_status (merge_main merge2 flow jview estr a tty srcs stdin_src) <> Exit 0 ->
-  delivered (merge_main merge2 flow jview estr a tty srcs stdin_src) = [].
+  r_status (cli_merge_main merge2 flow jview estr a tty srcs stdin_src) <> Exit 0 ->
+  delivered (cli_merge_main merge2 flow jview estr a tty srcs stdin_src) = [].
 Proof.
-  intros merge2 flow jview estr a tty srcs stdin_src. unfold merge_main.
+  intros merge2 flow jview estr a tty srcs stdin_src. unfold cli_merge_main.
   destruct (merge_validate a (List.length srcs) (map s_name srcs) tty) as [[nerr vl] n'] eqn:V.
   pose proof (merge_validate_no_dump _ _ _ _ _ _ _ V) as DV.
   assert (X : forall k, dumped (vl ++ hints k) = []) by (intros; rewrite dumped_app, DV, dumped_hints; reflexivity).
@@ -171,12 +171,12 @@ Lemma merge_output_condense : forall merge2 flow jview estr a tty srcs stdin_src
   forall d rest,
     flat_map (src_docs estr) srcs ++ (if stdin_waits_m a tty srcs then src_docs estr stdin_src else []) = d :: rest ->
     let m := fold_merge merge2 d rest in
-    r_status (merge_main merge2 flow jview estr a tty srcs stdin_src) = Exit 0 /\
-    delivered (merge_main merge2 flow jview estr a tty srcs stdin_src) =
+    r_status (cli_merge_main merge2 flow jview estr a tty srcs stdin_src) = Exit 0 /\
+    delivered (cli_merge_main merge2 flow jview estr a tty srcs stdin_src) =
       [(doc_is_json flow a m, [prepared flow jview a (prepared flow jview a m)])].
 Proof.
   intros merge2 flow jview estr a tty srcs stdin_src nerr vl n' clean Mode V Z F FS BK d rest ALL m.
-  unfold merge_main. rewrite V. subst nerr. simpl negb. cbv iota. rewrite Mode.
+  unfold cli_merge_main. rewrite V. subst nerr. simpl negb. cbv iota. rewrite Mode.
   destruct (merge_loop_condense merge2 clean estr srcs [] 0 false 0 F (or_introl eq_refl))
     as (m1 & c1 & E & I1 & C1 & Z1).
   rewrite E. simpl orb. cbv beta iota. simpl Nat.eqb. cbv iota. simpl andb.
